@@ -341,6 +341,16 @@ type refPrefix struct {
 	lifetime  uint32
 }
 
+// c14DNSSL builds a DNS search list option (RFC 8106): 2 reserved bytes, lifetime, names, zero padding to 8 bytes.
+func c14DNSSL(life uint32, names ...string) []byte {
+	v := make([]byte, 6)
+	v[2], v[3], v[4], v[5] = byte(life>>24), byte(life>>16), byte(life>>8), byte(life)
+	for _, n := range names {
+		v = append(v, refnet.DNSName(n)...)
+	}
+	return refnet.NDPOption(31, v)
+}
+
 func c14Options() []raOpt {
 	p16 := func(s string) [16]byte { return netip.MustParseAddr(s).As16() }
 	prefixOpt := func(l byte, flags byte, valid, pref uint32, a [16]byte) []byte {
@@ -360,14 +370,7 @@ func c14Options() []raOpt {
 		}
 		return refnet.NDPOption(25, v)
 	}
-	dnssl := func(life uint32, names ...string) []byte {
-		v := make([]byte, 6)
-		v[2], v[3], v[4], v[5] = byte(life>>24), byte(life>>16), byte(life>>8), byte(life)
-		for _, n := range names {
-			v = append(v, refnet.DNSName(n)...)
-		}
-		return refnet.NDPOption(31, v)
-	}
+	dnssl := c14DNSSL
 	route := func(l byte, pref byte, life uint32, a [16]byte) []byte {
 		n := 0
 		if l > 0 {
@@ -426,6 +429,13 @@ func c14Learn(c *core.Ctx, st *c14State, opts []raOpt, flags byte, lifetime uint
 	frame := refnet.Eth([]byte{0x33, 0x33, 0, 0, 0, 1}, env.RouterMAC, 0x86dd, refnet.IP6(env.RouterLLA, mc6, 58, 255, refnet.ICMP6(env.RouterLLA, mc6, 134, 0, body), -1))
 	rp := c14Replay{Kind: "ra", Frame: hex.EncodeToString(frame)}
 	class := strings.Join(names, "+")
+	if differential { // C10: the learned router must not depend on what happens to the receive buffer afterwards
+		if v := c10RA(st, frame); v != "" {
+			c.Violate("alias|router-learning", fmt.Sprintf("RA options [%s] flags=%#02x lifetime=%d: %s", class, flags, lifetime, v), rp)
+		}
+		c.Distinct(frame)
+		return
+	}
 	if what := c14Check(st, frame); what != "" {
 		sig := "router-learning|" + firstWords(what, 2)
 		c.Violate(sig, fmt.Sprintf("RA options [%s] flags=%#02x lifetime=%d: %s", class, flags, lifetime, what), rp)
@@ -454,8 +464,10 @@ func c14Check(st *c14State, frame []byte) (what string) {
 	if err := h.ProcessPacket(f); err != nil {
 		return "ProcessPacket rejected a well formed router advertisement: " + err.Error()
 	}
-	for i := range buf {
-		buf[i] = 0xa5 // the learned state must not alias the packet buffer (C10)
+	if !scribbleOff {
+		for i := range buf {
+			buf[i] = 0xa5 // the learned state must not alias the packet buffer (C10)
+		}
 	}
 	// reference decode
 	ic := frame[14+40:]
@@ -609,6 +621,16 @@ func c14LearnSweep(c *core.Ctx) {
 		}
 	}
 	rec(nil)
+	// DNS search lists of every length class: one and two names whose encoding leaves 0..7 bytes of padding
+	for n := 1; n <= 16; n++ {
+		if !next() {
+			continue
+		}
+		one := strings.Repeat("a", n) + ".io"
+		two := strings.Repeat("b", n) + ".lan"
+		c14Learn(c, st, []raOpt{{name: fmt.Sprintf("dnssl-1x%d", n), raw: c14DNSSL(1200, one), dnssl: []string{one}}}, 0x40, 1800, 64, 0, 0)
+		c14Learn(c, st, []raOpt{{name: fmt.Sprintf("dnssl-2x%d", n), raw: c14DNSSL(600, one, two), dnssl: []string{one, two}}}, 0x40, 1800, 64, 0, 0)
+	}
 	// all 256 flag bytes for a few representative option lists
 	for fl := 0; fl < 256; fl++ {
 		if !next() {
@@ -621,7 +643,7 @@ func c14LearnSweep(c *core.Ctx) {
 
 func c14Run(c *core.Ctx, args []string) {
 	c.Res.Level = "model_checking"
-	c.Res.Rule = "(a) confinement: every API history of length <=2 (thorough <=3) over {StartHunt(link-local / address-less / global / IPv4 target), StopHunt(link-local / address-less), Close} x RA delivery sequences {none, r1, r1 r1, r1 r2, r2 r1 r1 r1 r1}; stateless DFS over all schedules up to the deviation bound, then two spoof cycles, Close, two more cycles; linear-time monitor over emitted neighbour advertisements (override, hop limit 255, only to hunted MACs, only for learned routers, at most one in-flight batch after StopHunt, none one cycle after Close, IPv4 rejected, non link-local ignored, one loop per MAC). (b) router learning: every RA built from all option sequences of length <=2 (thorough <=3) over 14 options x flag set x lifetimes, and all 256 flag bytes; learned router compared with the reference decode. distinct = observation vectors (a) + distinct RA frames (b)"
+	c.Res.Rule = "(a) confinement: every API history of length <=2 (thorough <=3) over {StartHunt(link-local / address-less / global / IPv4 target), StopHunt(link-local / address-less), Close} x RA delivery sequences {none, r1, r1 r1, r1 r2, r2 r1 r1 r1 r1}; stateless DFS over all schedules up to the deviation bound, then two spoof cycles, Close, two more cycles; linear-time monitor over emitted neighbour advertisements (override, hop limit 255, only to hunted MACs, only for learned routers, at most one in-flight batch after StopHunt, none one cycle after Close, IPv4 rejected, non link-local ignored, one loop per MAC). (b) router learning: every RA built from all option sequences of length <=2 (thorough <=3) over 14 options x flag set x lifetimes, DNS search lists of every padding length, and all 256 flag bytes; learned router compared with the reference decode. distinct = observation vectors (a) + distinct RA frames (b)"
 	c.Res.Assumptions = []string{"one in-flight batch of advertisements per loop may leave after StopHunt returned", "each RA is delivered as the first of its group (the handler processes every 4th RA); at most one option of each single-valued kind per RA", "address-less targets are reached by unicast MAC + all-nodes destination (reported under C07, not here)"}
 	if c.Job == "learn" {
 		c14LearnSweep(c)
